@@ -230,7 +230,7 @@ func (x *Exec) specSelector(n *ast.SelectorExpr, env *specEnv, reach Term) Val {
 			return g
 		}
 		if _, shadow := env.names[id.Name]; !shadow {
-			if p := x.e.pkgByName(id.Name); p != nil && (env.pkg == nil || env.pkg.Scope().Lookup(id.Name) == nil) {
+			if p := x.e.pkgByNameFrom(env.pkg, id.Name); p != nil && (env.pkg == nil || env.pkg.Scope().Lookup(id.Name) == nil) {
 				obj := p.Scope().Lookup(n.Sel.Name)
 				if obj == nil {
 					specFail("%s.%s not found", id.Name, n.Sel.Name)
@@ -473,6 +473,48 @@ func (x *Exec) specCall(n *ast.CallExpr, env *specEnv, reach Term) Val {
 		case "mi":
 			v := x.evalSpec(n.Args[0], env, reach)
 			return Val{MI: true, L: []Term{x.toMI(v)}}
+		case "untainted":
+			// untainted(e...): none of the values depends on a secret source (syntactic
+			// dependency check over the terms, see taint.go)
+			var ts []Term
+			for _, a := range n.Args {
+				v := x.evalSpec(a, env, reach)
+				if v.C != nil {
+					continue
+				}
+				ts = append(ts, x.scalarize(v).L...)
+			}
+			if why := x.taintOf(ts...); why != "" {
+				x.c.Note("untainted(): the value depends on %s", why)
+				return boolV(TFalse)
+			}
+			return boolV(TTrue)
+		case "sprintf":
+			// sprintf(format, a, b, ...): the text fmt.Sprintf produces (same symbol as the code's call)
+			f0 := x.materialize(x.evalSpec(n.Args[0], env, reach), types.Typ[types.String])
+			ts := []Term{f0.L[0]}
+			et := types.NewInterfaceType(nil, nil)
+			for _, a := range n.Args[1:] {
+				v := x.evalSpec(a, env, reach)
+				if v.C != nil {
+					specFail("sprintf(): untyped constant operand")
+				}
+				iv := x.makeInterface(v, v.T, et)
+				ts = append(ts, iv.L...)
+			}
+			return Val{T: types.Typ[types.String], L: []Term{x.c.App(fmt.Sprintf("sprintf_%d", len(n.Args)-1), SStr, ts...)}}
+		case "nth":
+			// nth(k, f(args)): the k-th result of a multi-result function call in a spec
+			lit, ok := n.Args[0].(*ast.BasicLit)
+			if !ok || len(n.Args) != 2 {
+				specFail("nth(k, call): k must be a literal")
+			}
+			k, _ := strconv.Atoi(lit.Value)
+			save := x.wantResult
+			x.wantResult = k
+			v := x.evalSpec(n.Args[1], env, reach)
+			x.wantResult = save
+			return v
 		case "lastrecv":
 			// lastrecv(ch): the value most recently received from the channel parameter ch
 			// of the function under verification (ghost history of the channel)
@@ -591,8 +633,18 @@ func (x *Exec) specCall(n *ast.CallExpr, env *specEnv, reach Term) Val {
 	if se, ok := n.Fun.(*ast.SelectorExpr); ok {
 		// pkg.Func(...) or recv.Method(...)
 		if id, ok := se.X.(*ast.Ident); ok {
+			if id.Name == "slices" && se.Sel.Name == "Contains" && len(n.Args) == 2 {
+				if _, shadow := env.names[id.Name]; !shadow {
+					sv := x.evalSpec(n.Args[0], env, reach)
+					vv := x.evalSpec(n.Args[1], env, reach)
+					if r, ok := x.sliceContains(env.st, sv, vv); ok {
+						return r
+					}
+					specFail("slices.Contains: unsupported operand types")
+				}
+			}
 			if _, shadow := env.names[id.Name]; !shadow && id.Name != "ghost" && id.Name != "result" {
-				if p := x.e.pkgByName(id.Name); p != nil {
+				if p := x.e.pkgByNameFrom(env.pkg, id.Name); p != nil {
 					obj := p.Scope().Lookup(se.Sel.Name)
 					switch o := obj.(type) {
 					case *types.Func:
@@ -630,6 +682,14 @@ func (x *Exec) specCall(n *ast.CallExpr, env *specEnv, reach Term) Val {
 			}
 			return x.specIfaceCall(recv, se.Sel.Name, iargs, env, reach)
 		}
+		// a value-receiver method called through a pointer: the code dereferences and
+		// calls the value method, so does the spec (same function, same symbols)
+		if pt, isPtr := recv.T.Underlying().(*types.Pointer); isPtr {
+			if vs := x.e.prog.MethodSets.MethodSet(pt.Elem()).Lookup(x.pkgOfType(recv.T), se.Sel.Name); vs != nil {
+				recv = x.load(env.st, x.toAddr(recv), reach)
+				sel = vs
+			}
+		}
 		fn := x.e.prog.MethodValue(sel)
 		return x.specInline(fn, &recv, n.Args, env, reach)
 	}
@@ -656,6 +716,8 @@ func (x *Exec) specInline(fn *ssa.Function, recv *Val, argExprs []ast.Expr, env 
 	if fn == nil {
 		specFail("spec calls an unknown function")
 	}
+	want := x.wantResult
+	x.wantResult = 0 // applies to this call only, not to calls inside its arguments or body
 	x.e.ensureBuilt(fn)
 	noBody := len(fn.Blocks) == 0
 	pts := sigParamTypes(fn.Signature)
@@ -671,11 +733,17 @@ func (x *Exec) specInline(fn *ssa.Function, recv *Val, argExprs []ast.Expr, env 
 	}
 	if noBody {
 		r := x.pureCall(fn, args, env.st)
-		return r[0]
+		if want >= len(r) {
+			specFail("nth: %s has %d results", fn.String(), len(r))
+		}
+		return r[want]
 	}
 	if ct := x.contractFor(fn); ct != nil && ct.Pure {
 		r := x.pureCall(fn, args, env.st)
-		return r[0]
+		if want >= len(r) {
+			specFail("nth: %s has %d results", fn.String(), len(r))
+		}
+		return r[want]
 	}
 	if !x.canInline(fn, 2) {
 		specFail("spec calls %s which cannot be inlined", fn.String())
@@ -687,6 +755,12 @@ func (x *Exec) specInline(fn *ssa.Function, recv *Val, argExprs []ast.Expr, env 
 	}
 	if len(res) == 1 {
 		return res[0]
+	}
+	if want > 0 {
+		if want >= len(res) {
+			specFail("nth: %s has %d results", fn.String(), len(res))
+		}
+		return res[want]
 	}
 	// multi-result: pack as tuple
 	out := Val{T: fn.Signature.Results()}
